@@ -491,6 +491,34 @@ fn mcinstr_w<C: CellType>(text: &str, idx: usize) -> String {
     format!("ok {} {} {}", code[a..b].iter().map(|x| format!("{x:02x}")).collect::<String>(), a, term)
 }
 
+fn mcprog_w<C: CellType>(level: u32, limited: bool, safe: bool, src: &str) -> String {
+    match BaseJitCompiler::<C>::create(src, level) {
+        Ok(ex) => {
+            let text = crate::dump::bc_text(ex.verif_bytecode());
+            let (code, locs, term) = ex.verif_compile(limited, safe);
+            format!(
+                "ok {} | {} | {} | {}",
+                text,
+                code.iter().map(|x| format!("{x:02x}")).collect::<String>(),
+                locs.iter().map(|x| x.to_string()).collect::<Vec<_>>().join(","),
+                term
+            )
+        }
+        Err(e) => format!("create-{}", err_string(&e)),
+    }
+}
+
+/// mcprog|w|level|limited|safe|src-hex : bytecode text, machine code (hex), code offset of every
+/// bytecode instruction and of the termination path, all from one compilation
+pub fn mcprog(f: &[&str]) -> String {
+    let w: u32 = f[0].parse().unwrap();
+    let level: u32 = f[1].parse().unwrap();
+    let limited = f[2] == "1";
+    let safe = f[3] == "1";
+    let src = String::from_utf8(hex_bytes(f[4])).expect("utf8 source");
+    in_child(20000, move || by_width!(w, mcprog_w, level, limited, safe, &src))
+}
+
 /// mcinstr|w|idx|bc-text : machine code (hex) the baseline JIT emits for instruction idx of a
 /// hand-made bytecode program (unlimited, checked mode)
 pub fn mcinstr(f: &[&str]) -> String {
